@@ -466,6 +466,22 @@ func checkC02(c *Ctx) {
 	// certificate was signed with the key derived from that registration's secret
 	r.Rule("C02.12", "DTLS sessions are accepted only with a certificate signed by the secret-derived key", 1)
 	checkVerifyCert(c, "C02.12")
+
+	// ---- C02.14 "unexpired for that same phantom": a match on one phantom extends the life of that phantom's record only
+	r.Rule("C02.14", "a matched connection marks only the record under the matched registration's own (phantom, identifier) key as used", 1)
+	checkMarkOwnRecord(c, "C02.14")
+
+	// ---- C02.13 "produced for a different transport or prefix than the one registered": the transports compare the
+	// presented flight with the registration's parameters through a type test on what TransportParams() returns; a
+	// value that did not come out of the transport's own ParseParams (a raw *anypb.Any, the client's message) fails
+	// that type test and the comparison is skipped without a trace
+	r.Rule("C02.13", "a registration's transport parameters are the value its transport's ParseParams returned", 1)
+	for _, f := range c.P.RepoFuncs() {
+		for _, st := range fieldStores(f, "lib.DecoyRegistration", "transportParams") {
+			r.Check(fromParseParams(f, st.Val, 0), "C02.13", fnName(f)+": writes DecoyRegistration.transportParams", st.Pos(), fnName(f), "the stored value is the first result of ParseParams: "+firstN(pathOf(st.Val), 80),
+				"the registration's transport parameters are set to a value ("+firstN(pathOf(st.Val), 60)+") that is not the parsed form its transport produced: the transports' type test on it fails and the prefix / parameter comparison with the presented flight is skipped")
+		}
+	}
 	// register is only reached from AddRegistration
 	if reg := c.P.Func(repoMod+"/pkg/station/lib", "RegisteredDecoys", "register"); reg != nil {
 		var callers []string
@@ -686,4 +702,79 @@ func checkPrefixLookupKey(c *Ctx, rule string) {
 		})
 		r.Check(okk, rule, "prefix getReg: registration looked up under the tag revealed with a station key, only if found", f.Pos(), fnName(f), "map element under string(TryReveal(obfuscatedID, privkey))", "the prefix transport's lookup key is not the revealed tag (or the found test is missing)")
 	}
+}
+
+// fromParseParams: v is (a conversion / phi of) the first result of an invocation of a transport's ParseParams, or of
+// a helper of the package whose every non-constant first result is.
+func fromParseParams(f *ssa.Function, v ssa.Value, depth int) bool {
+	if depth > 3 {
+		return false
+	}
+	switch x := v.(type) {
+	case *ssa.MakeInterface:
+		return fromParseParams(f, x.X, depth)
+	case *ssa.ChangeInterface:
+		return fromParseParams(f, x.X, depth)
+	case *ssa.ChangeType:
+		return fromParseParams(f, x.X, depth)
+	case *ssa.Phi:
+		for _, e := range x.Edges {
+			if !fromParseParams(f, e, depth+1) {
+				return false
+			}
+		}
+		return len(x.Edges) > 0
+	case *ssa.UnOp:
+		// a local that is only ever assigned such values
+		if a, ok := x.X.(*ssa.Alloc); ok && x.Op == token.MUL && a.Referrers() != nil {
+			n := 0
+			for _, ref := range *a.Referrers() {
+				if st, ok := ref.(*ssa.Store); ok && st.Addr == ssa.Value(a) {
+					n++
+					if !fromParseParams(f, st.Val, depth+1) {
+						return false
+					}
+				}
+			}
+			return n > 0
+		}
+	case *ssa.Extract:
+		if x.Index != 0 {
+			return false
+		}
+		call, ok := x.Tuple.(*ssa.Call)
+		if !ok {
+			return false
+		}
+		if call.Call.IsInvoke() {
+			return call.Call.Method.Name() == "ParseParams"
+		}
+		if sc := call.Call.StaticCallee(); sc != nil && sc.Name() == "ParseParams" && sc.Signature.Recv() != nil {
+			return true
+		}
+		hc := helperCallee(f, &call.Call)
+		if hc == nil {
+			return false
+		}
+		n, all := 0, true
+		eachInstr(hc, func(in ssa.Instruction) {
+			ret, ok := in.(*ssa.Return)
+			if !ok || len(ret.Results) == 0 {
+				return
+			}
+			rv := returnedValue(ret, 0, nil)
+			if mi, ok := rv.(*ssa.MakeInterface); ok {
+				if _, isC := mi.X.(*ssa.Const); isC {
+					return // the error path
+				}
+			}
+			if _, isC := rv.(*ssa.Const); isC {
+				return
+			}
+			n++
+			all = all && fromParseParams(hc, rv, depth+1)
+		})
+		return n > 0 && all
+	}
+	return false
 }
